@@ -30,6 +30,7 @@ type rawEvent struct {
 	ts    []*txrec
 	obs   obsRaw
 	feeub int
+	misordered bool
 }
 
 type concSession struct {
@@ -206,7 +207,8 @@ func concurrentSession(seed int64, index int) (*run, error) {
 					t := take()
 					c.gate.Lock()
 					e := wd.broadcast(t)
-					c.add(rawEvent{stamp: c.ctr.Add(1), op: "Bcast", ts: []*txrec{t}, r: e["r"].(string)})
+					mo, _ := e["misordered"].(bool)
+					c.add(rawEvent{stamp: c.ctr.Add(1), op: "Bcast", ts: []*txrec{t}, r: e["r"].(string), misordered: mo})
 					c.gate.Unlock()
 				case x < 92:
 					n, amt := 1+grng.Intn(3), 1+grng.Intn(8)
@@ -265,7 +267,7 @@ func (c *concSession) finish(outs []Out, tag string) *run {
 		case "RelBegin", "RelEnd":
 			r.emit(ev{"op": x.op, "tid": x.ts[0].tid})
 		case "Bcast":
-			r.emit(ev{"op": "Bcast", "tid": x.ts[0].tid, "r": x.r})
+			r.emit(ev{"op": "Bcast", "tid": x.ts[0].tid, "r": x.r, "misordered": x.misordered})
 		case "Mine":
 			r.emit(ev{"op": "Mine"})
 		case "Obs":
